@@ -835,6 +835,11 @@ func c12Gen(tier string, seed uint64, out *bufio.Writer) {
 		l := c12RandomLevel(r, 5+r.intn(4), 3, bigLetters)
 		c12EmitK(out, c12NameAtoms(l).String())
 	}
+	// 4b. related operands (c12_related.go): the same atoms grouped in two ways, identical / mirrored
+	//     / repeated operands, under not, with constants; own random stream, so that the streams
+	//     below do not depend on it
+	out.Flush()
+	c12GenRelated(tier, seed, out)
 	// 5. re-spellings of mixed queries
 	nR := 2500
 	if thorough {
